@@ -551,6 +551,36 @@ func (s *Sim) closeStart() {
 	s.wait("closer")
 }
 
+// closeAgain: Close is called once more (by another owner of the client, by a deferred call): it must come back at once,
+// whatever the first Close is doing
+func (s *Sim) closeAgain() {
+	if s.closeState == "" {
+		return
+	}
+	done := make(chan struct{})
+	go func() {
+		s.mu.Lock()
+		s.roles[goid()] = "closer2"
+		s.mu.Unlock()
+		defer close(done)
+		defer func() {
+			if r := recover(); r != nil {
+				s.record("closer2", "Panic", r)
+			}
+		}()
+		s.api.Close()
+	}()
+	synctest.Wait()
+	returned := false
+	select {
+	case <-done:
+		returned = true
+	default:
+	}
+	s.emit("CloseAgain", "returned", returned)
+	s.drain("closer2")
+}
+
 func (s *Sim) tick() {
 	time.Sleep(unit)
 	s.emit("Tick")
@@ -598,6 +628,7 @@ func (s *Sim) finish() {
 		limit += s.cfg.T * (1 << uint(s.cfg.Tries))
 	}
 	idle := 0
+	late := false
 	for step := 0; step < 100000; step++ {
 		rs := s.releasableRoles()
 		if len(rs) > 0 {
@@ -606,6 +637,16 @@ func (s *Sim) finish() {
 			continue
 		}
 		if s.allReturned() && (s.closeState == "returned") {
+			if !late && s.rng.Intn(3) == 0 {
+				// use after Close: a call on the closed client fails with the connection's error and leaves nothing behind;
+				// a further Close returns at once
+				late = true
+				if s.rng.Intn(2) == 0 {
+					s.closeAgain()
+				}
+				s.start(1 + s.rng.Intn(len(s.cfg.Xid)))
+				continue
+			}
 			break
 		}
 		if s.allReturned() && s.closeState == "" {
